@@ -770,3 +770,85 @@ def impl_c12(case, scratch):
         return {"outcome": "ok", "rows": rows}
     finally:
         close_ctx(ctx)
+
+
+# ---------------------------------------------------------------- C09
+C09_MODULES = {
+    "counter": "local n = 0\nlocal e = {}\nfunction e.main(frame) n = n + 1 return 'n=' .. n end\nreturn e",
+    "glob": "local e = {}\nfunction e.main(frame) G_COUNT = (G_COUNT or 0) + 1 return 'g=' .. G_COUNT end\nreturn e",
+    "strlib": "local e = {}\nfunction e.main(frame) string.zz = (string.zz or 0) + 1 return 's=' .. string.zz end\nreturn e",
+    "strmeta": "local e = {}\nfunction e.main(frame) local mt = getmetatable('') if mt and mt.__index then "
+               "local ok = pcall(function() mt.__index.zq = (mt.__index.zq or 0) + 1 end) return 'm=' .. tostring(('').zq) end return 'm=nil' end\nreturn e",
+    "tbllib": "local e = {}\nfunction e.main(frame) table.zz = (table.zz or 0) + 1 return 't=' .. table.zz end\nreturn e",
+    "mwlib": "local e = {}\nfunction e.main(frame) mw.zz = (mw.zz or 0) + 1 return 'w=' .. mw.zz end\nreturn e",
+    "mwtext": "local e = {}\nfunction e.main(frame) mw.text.zz = (mw.text.zz or 0) + 1 return 'x=' .. mw.text.zz end\nreturn e",
+    "lib": "local n = 0\nlocal e = {}\nfunction e.inc() n = n + 1 return n end\nreturn e",
+    "uselib": "local e = {}\nfunction e.main(frame) return 'l=' .. require('Module:lib').inc() end\nreturn e",
+    "data": "return {n = 0, t = {1, 2}}",
+    "usedata": "local e = {}\nfunction e.main(frame) local d = mw.loadData('Module:data') local ok = pcall(function() d.n = d.n + 1 end) "
+               "local ok2 = pcall(rawset, d, 'q', 1) return 'd=' .. tostring(d.n) .. ',' .. tostring(rawget(d, 'q')) end\nreturn e",
+    "args": "local e = {}\nfunction e.main(frame) local a = frame.args a.extra = 'x' return 'a=' .. tostring(frame.args[1]) .. tostring(frame.args.extra2) end\nreturn e",
+    "osdate": "local e = {}\nfunction e.main(frame) os.zz = (os.zz or 0) + 1 return 'o=' .. os.zz end\nreturn e",
+    "mathlib": "local e = {}\nfunction e.main(frame) math.zz = (math.zz or 0) + 1 return 'h=' .. math.zz end\nreturn e",
+    "pkg": "local e = {}\nfunction e.main(frame) local p = package and package.loaded if p then p.zz = (p.zz or 0) + 1 return 'p=' .. p.zz end return 'p=nil' end\nreturn e",
+}
+C09_TEMPLATES = dict(STD_TEMPLATES, **{"cnt": "{{#invoke:counter|main}}/{{#invoke:counter|main}}"})
+
+
+def c09_db(scratch):
+    path = os.path.join(scratch, "c09_%d.db" % os.getpid())
+    if not os.path.exists(path):
+        ctx = Wtp(db_path=path, quiet=True, quiet_output=True)
+        ctx.add_page("Module:ustring:ustring", 828, USTRING_STUB, model="Scribunto")
+        ctx.add_page("Module:echo", 828, ECHO_MODULE, model="Scribunto")
+        for k, v in C09_MODULES.items():
+            ctx.add_page("Module:" + k, 828, v, model="Scribunto")
+        for k, v in STD_MODULES.items():
+            ctx.add_page("Module:" + k, 828, v, model="Scribunto")
+        for k, v in C09_TEMPLATES.items():
+            ctx.add_page("Template:" + k, 10, v)
+        ctx.db_conn.commit()
+        ctx.db_conn.close()
+    return path
+
+
+def c09_run_page(ctx, page):
+    ctx.start_page(page["title"])
+    out = {}
+    try:
+        for step in page["steps"]:
+            if step[0] == "expand":
+                out.setdefault("expand", []).append(ctx.expand(page["text"], **step[1]))
+            else:
+                out.setdefault("parse", []).append(_tree(ctx.parse(page["text"], **step[1])))
+    except BaseException as e:  # noqa
+        out["raised"] = type(e).__name__
+        ctx.expand_stack = [page["title"]]
+        ctx.parser_stack = []
+    out["msgs"] = {k: [[m["msg"][:60], m["title"], m["section"], list(m["path"])] for m in v] for k, v in ctx.to_return().items() if v}
+    return out
+
+
+def impl_c09(case, scratch):
+    """case: pages: [{title, text, steps}], history: [indices], pre_ctx: bool"""
+    path = c09_db(scratch)
+    import shutil
+    outs = {}
+    if case.get("pre_ctx"):
+        # another context created earlier in this process with different options
+        other = Wtp(db_path=os.path.join(scratch, "other_%d.db" % os.getpid()), quiet=True, quiet_output=True,
+                    extension_tags={"foo": {"parents": ["phrasing"], "content": ["phrasing"]}})
+        other.start_page("O")
+        other.parse("<foo>x</foo>")
+        other.db_conn.close()
+    copy = os.path.join(scratch, "c09h_%d_%d.db" % (os.getpid(), next(_counter)))
+    shutil.copy(path, copy)
+    ctx = Wtp(db_path=copy, quiet=True, quiet_output=True)
+    results = []
+    try:
+        for i in case["history"]:
+            results.append(c09_run_page(ctx, case["pages"][i]))
+    finally:
+        ctx.db_conn.close()
+        os.unlink(copy)
+    return {"outcome": "ok", "results": results}
